@@ -1,10 +1,20 @@
 /- The word table the VM looks native calls up in: name → program over primitives. -/
 import XehModel.Model.Words
+import XehModel.Model.Tags
+import XehModel.Model.Enc
 
 namespace Xeh
 
-def nativeTable : List (String × Prog) := coreTable ++ arithTable
+def nativeTable : List (String × Prog) :=
+  coreTable ++ arithTable ++ Coll.collTable ++ Coll.tagTable ++ Enc.encTable
 
 def nativeProg (name : String) : Option Prog := nativeTable.lookup name
+
+/-- an outcome produced by a gap of the model (a word or a printing case it does not cover), never
+    by the modelled code: the driver answers `unsupported` instead of guessing -/
+def isModelGap : Outcome α → Bool
+  | .panic s => s.startsWith "model:"
+  | .err (.errorMsg m) => m.startsWith "model:"
+  | _ => false
 
 end Xeh
